@@ -66,6 +66,20 @@ def check(tier, seed, replay=None):
                 s_["off"] = (-1 if c["sense"] == "max" else 1) * int(0.8 * big)
                 shifted.append(s_)
         cases += shifted
+        # ... and the shifted knapsacks again in units of 1/32: the visible optimum lies inside (-1, 1), where a gap test
+        # with a floor of 1 under the denominator (gap * max(|value|, 1)) is an absolute test in disguise
+        small = []
+        for c in shifted:
+            if c["id"].startswith("Knap"):
+                s_ = copy.deepcopy(c)
+                s_["id"] = c["id"] + "s"
+                s_["den"] = c.get("den", 1) * 32
+                for r in s_["rows"]:          # the rows keep their meaning: a.x <= b is scale-free
+                    r["a"] = [a * 32 for a in r["a"]]
+                    r["b"] = r["b"] * 32
+                small.append(s_)
+        meta["shifted_small"] = {"cases": len(small)}
+        cases += small
         # the knapsack models turned into covering models (y = 1 - x: minimise the cost of what is left out,
         # the weight left out must reach the excess), with negative constants that bring the visible minimum
         # towards zero from above: the gap test of a minimisation has the bound BELOW the incumbent
